@@ -383,3 +383,54 @@ func (vc *VC) lookupVar(name string, pos token.Pos) types.Object {
 	}
 	return nil
 }
+
+// localAtInstr resolves a source-level local variable at an instruction (used by callsite clauses):
+// the most recent definition/reference of the variable that dominates the instruction.
+func (vc *VC) localAtInstr(name string, at ssa.Instruction, heap *Heap) *Val {
+	atBlock := at.Block()
+	// address-taken local
+	for _, b := range vc.fn.Blocks {
+		for _, ins := range b.Instrs {
+			if al, ok := ins.(*ssa.Alloc); ok && al.Comment == name {
+				if p, ok := vc.vals[al]; ok && (b == atBlock || b.Dominates(atBlock)) {
+					et := al.Type().Underlying().(*types.Pointer).Elem()
+					return vc.load(heap, layoutOf(et), et, p.C[0], p.C[1])
+				}
+			}
+		}
+	}
+	var best ssa.Value
+	var bestBlock *ssa.BasicBlock
+	bestIdx := -1
+	for _, b := range vc.fn.Blocks {
+		if b != atBlock && !b.Dominates(atBlock) {
+			continue
+		}
+		for i, ins := range b.Instrs {
+			if ins == at && b == atBlock {
+				break
+			}
+			dr, ok := ins.(*ssa.DebugRef)
+			if !ok || dr.IsAddr {
+				continue
+			}
+			id, ok := dr.Expr.(*ast.Ident)
+			if !ok || id.Name != name {
+				continue
+			}
+			if _, ok := vc.vals[dr.X]; !ok {
+				if _, isConst := dr.X.(*ssa.Const); !isConst {
+					continue
+				}
+			}
+			later := best == nil || (bestBlock == b && i > bestIdx) || (bestBlock != b && bestBlock.Dominates(b))
+			if later {
+				best, bestBlock, bestIdx = dr.X, b, i
+			}
+		}
+	}
+	if best != nil {
+		return vc.val(best)
+	}
+	return nil
+}
